@@ -19,6 +19,7 @@ mod abi;
 mod abicall;
 mod abitraits;
 mod abiuse;
+mod extras;
 
 use std::collections::BTreeMap;
 use std::io::Write;
@@ -113,6 +114,22 @@ fn main() {
                 for &v in &e.versions {
                     writeln!(out, "(packed @{} {})\t(ok {})", e.name, v, (e.packed)(v)).unwrap();
                 }
+            }
+        }
+        // library types outside the model: direct oracles (C01, C06, C07)
+        "extras" => {
+            let mut stats: BTreeMap<String, u64> = BTreeMap::new();
+            let mut r = Rng::new(name_seed(a.seed, "extras", 1));
+            for l in extras::cases(&mut r, a.cases) {
+                if let Some(k) = l.strip_prefix("#stat ") {
+                    let (k, v) = k.rsplit_once(' ').unwrap();
+                    *stats.entry(k.to_string()).or_default() += v.parse::<u64>().unwrap();
+                } else {
+                    writeln!(out, "{}", l).unwrap();
+                }
+            }
+            for (k, v) in stats {
+                writeln!(out, "#stat {} {}", k, v).unwrap();
             }
         }
         // C09: calls through a connection vs direct calls
@@ -504,6 +521,30 @@ fn main() {
                 writeln!(out, "(laycompat {} {})\t{}", hex(&zoo_schemas[i].1), hex(&zoo_schemas[j].1), lay_reply(&sa, &sb)).unwrap();
                 *stats.entry("zoo-pairs".into()).or_default() += 1;
             }
+            // 2b. schemas with complete layout information and single changes of one layout fact (C11)
+            let mut r = Rng::new(name_seed(a.seed, "schema-layout", 2));
+            for i in 0..a.cases * 40 {
+                let (ls, _, _) = gen_layout(&mut r, 1 + (i % 3) as u32);
+                let s = ls.build();
+                let b = ser_schema(&s, 2);
+                let own = lay_reply(&s, &s);
+                writeln!(out, "(laycompat {} {})\t{}", hex(&b), hex(&b), own).unwrap();
+                *stats.entry(format!("layout-self-{}", own.trim_matches(|c| c == '(' || c == ')').replace(' ', "-"))).or_default() += 1;
+                for _ in 0..3 {
+                    if let Some((kind, lm)) = mutate_layout(&mut r, &ls) {
+                        let m = lm.build();
+                        let bm = ser_schema(&m, 2);
+                        let l1 = lay_reply(&s, &m);
+                        let l2 = lay_reply(&m, &s);
+                        writeln!(out, "(laycompat {} {})\t{}", hex(&b), hex(&bm), l1).unwrap();
+                        writeln!(out, "(laycompat {} {})\t{}", hex(&bm), hex(&b), l2).unwrap();
+                        *stats.entry(format!("layout-mut-{}", kind)).or_default() += 1;
+                        if l1 != "(ok false)" || l2 != "(ok false)" {
+                            writeln!(out, "!C11 layout-difference-accepted change={} original={} changed={} got={}/{}", kind, hex(&b), hex(&bm), l1, l2).unwrap();
+                        }
+                    }
+                }
+            }
             // 3. random schemas, reflexivity, single-step mutations, layout compatibility
             let mut r = Rng::new(name_seed(a.seed, "schema-random", 1));
             for i in 0..a.cases * 40 {
@@ -625,6 +666,30 @@ fn main() {
                                     }
                                     Err(reply) => {
                                         writeln!(out, "!C03 save-failed family={} v{} value={} got={}", key, i, wire, reply).unwrap();
+                                    }
+                                }
+                            }
+                            // the same old data through every container: the gate and the reader must not depend
+                            // on whether the file is plain, compressed or encrypted (C05, C03)
+                            for c in 0..a.cases.min(3) {
+                                let vseed = name_seed(a.seed, key, (i * 100 + j) as u64 * 31 + c as u64);
+                                let mut replies: Vec<(Kind, String)> = Vec::new();
+                                for kind in [Kind::Plain, Kind::Compressed, Kind::Encrypted] {
+                                    let mut rv = Rng::new(vseed);
+                                    let (_w, _c, res) = (ei.gen_save)(&mut rv, a.size, i, kind);
+                                    if let Ok(bytes) = res {
+                                        let rep = (ej.load)(kind, j, PASSWORD, &bytes);
+                                        // the trailing-byte count is container specific
+                                        let rep = rep.rsplit_once(' ').map(|(x, _)| x.to_string()).unwrap_or(rep);
+                                        replies.push((kind, rep));
+                                    }
+                                }
+                                *stats.entry("containers".into()).or_default() += 1;
+                                if let Some((_, first)) = replies.first() {
+                                    for (kind, rep) in replies.iter().skip(1) {
+                                        if rep != first {
+                                            writeln!(out, "!C05 container-changes-load-result family={} saved_by=v{} loaded_by=v{} plain={} {}={}", key, i, j, &first[..first.len().min(120)], kind.name(), &rep[..rep.len().min(120)]).unwrap();
+                                        }
                                     }
                                 }
                             }
